@@ -6,7 +6,7 @@
    under every schedule is observed with ThreadSanitizer, not proved. *)
 From Coq Require Import List String Bool PeanoNat.
 From IprV Require Import GenTypes GenCheck Isolation Lexicon LexiconProofs LexInst.
-From IprV.gen Require Import GenStatics GenWords.
+From IprV.gen Require Import GenStatics GenWords GenStore.
 Import ListNotations.
 Local Open Scope string_scope.
 
@@ -41,6 +41,15 @@ Proof. exact (norm_const_not_dyn known_words builtin_words ix_default ix_this ix
 Example c20_nonvacuous : Nat.ltb 10 (List.length gen_statics) = true.
 Proof. vm_compute. reflexivity. Qed.
 
+(* The nodes of every unifying table come from std::allocator, i.e. from operator new: the owning tree has no other base class
+   than its own core and std::allocator (a pooling allocator would be process-wide mutable state outside the library's text). *)
+Definition tree_base_ok (b : string) : bool :=
+  GenCheck.str_contains "std::allocator<" b || GenCheck.str_contains "core<" b.
+Theorem c20_tree_nodes_come_from_operator_new :
+  forallb tree_base_ok gen_tree_bases = true /\ existsb (GenCheck.str_contains "std::allocator<") gen_tree_bases = true.
+Proof. vm_compute. auto. Qed.
+
+Print Assumptions c20_tree_nodes_come_from_operator_new.
 Print Assumptions c20_no_mutable_statics.
 Print Assumptions c20_shared_tables_constexpr.
 Print Assumptions c20_interleaving_irrelevant.
